@@ -67,6 +67,9 @@ def resolve(files, cur_dir, paths, name):
 class Missing(Exception):
     pass
 
+class InAddr(Missing):
+    pass
+
 def expand(files, path, paths, depth=0, seen=None):
     """expected bytes of assembling the source file at `path`"""
     if depth > 12:
@@ -82,8 +85,10 @@ def expand(files, path, paths, depth=0, seen=None):
         if d in ('each', 'emptymac'):
             continue
         p = resolve(files, cur, paths, name)
+        if p is not None and d == 'include_addr' and files[p][0] == 'src':
+            raise InAddr             # found, and read inside the ADDR segment: its `@db <number>` is rejected there
         if p is None or d == 'include_addr':
-            raise Missing            # not found, or found and read inside the ADDR segment: `@db <number>` is rejected there
+            raise Missing
         if d == 'include':
             if files[p][0] != 'src':
                 raise Missing
@@ -155,6 +160,8 @@ def run(ck):
             fs.setdefault(d + "/.keep", "")        # make every directory exist
         try:
             e = "OK " + expand(files, root_dir + "/main.asm", paths).hex()
+        except InAddr:
+            e = "DIAG"
         except Missing:
             if rng.random() < 0.9:
                 continue            # keep the stream mostly resolvable; a share of missing-file programs remains
